@@ -340,8 +340,9 @@ func (v *numericValidator) generate(out *codegen.Emitter, format string) {
 			out.Printlnf(`if %s %s%s %% %v != 0 {`, checkPointer, pointerPrefix, value, v.valueOf(*v.multipleOf))
 		} else {
 			operand := pointerPrefix + value
-			if v.roundToInt {
-				// A fractional multipleOf cannot be truncated to an integer modulus.
+			if v.roundToInt || v.fieldName == "" {
+				// A fractional multipleOf cannot be truncated to an integer modulus, and the
+				// value of a named number type is not a float64 as far as math.Mod is concerned.
 				operand = "float64(" + operand + ")"
 			}
 
